@@ -20,15 +20,15 @@ structure Around (e : Env K) (eps : K) (pt : Nat → P K) (o : Out K) (k : Nat) 
   hyp : CoverHyp e eps
   k2 : 2 ≤ k
   sq : ∀ i, k - 1 ≤ i → i ≤ k + 1 → 0 < (pt (i + 1) - pt i).sqLen
-  jc : ∀ i, k - 2 ≤ i → i ≤ k + 1 → JClosed e pt i (psAt e pt (i + 1)) (nsAt e pt (i + 1))
+  jc : ∀ i, k - 2 ≤ i → i ≤ k + 1 → JClosed e pt i (psAt e pt (i + 1)) (nsAt e pt (i + 1)) (lamAt e pt (i + 1))
   quads : ∀ i, k - 1 ≤ i → i ≤ k + 1 → EmQuadJ o (jEP e pt i) (jEP e pt (i + 1))
   joins : ∀ i, k ≤ i → i ≤ k + 1 → EmJoin o (jEP e pt i)
   len : ∀ i, k - 1 ≤ i → i ≤ k + 1 → e.hwFw * (|jtau pt (i - 1)| + |jtau pt i| + 1) ≤ eL pt i
 
 /-- the quad of an inner edge `i+1`, corners in closed form (`n = 0`: no cap branch is ever taken) -/
 theorem inner_quad {e : Env K} {pt : Nat → P K} {o : Out K} (i : Nat)
-    (Ja : JClosed e pt i (psAt e pt (i + 1)) (nsAt e pt (i + 1)))
-    (Jb : JClosed e pt (i + 1) (psAt e pt (i + 1 + 1)) (nsAt e pt (i + 1 + 1)))
+    (Ja : JClosed e pt i (psAt e pt (i + 1)) (nsAt e pt (i + 1)) (lamAt e pt (i + 1)))
+    (Jb : JClosed e pt (i + 1) (psAt e pt (i + 1 + 1)) (nsAt e pt (i + 1 + 1)) (lamAt e pt (i + 1 + 1)))
     (hq : EmQuadJ o (jEP e pt (i + 1)) (jEP e pt (i + 1 + 1))) : EdgeQuad (EmTri o) e pt 0 (i + 1) := by
   obtain ⟨q1, q2⟩ := hq
   rw [Ja.sNegNext, Ja.sPosNext, Jb.sPosPrev] at q1
@@ -44,13 +44,15 @@ theorem inner_bounds (e : Env K) (pt : Nat → P K) (i : Nat) :
   simp only [sA0, sA1, sB0, sB1, if_neg (Nat.succ_ne_zero i), if_neg (Nat.succ_ne_zero (i + 1)), Nat.add_sub_cancel]
   have ha := abs_nonneg (jtau pt i)
   have hb := abs_nonneg (jtau pt (i + 1))
+  have hl1 := lamAt_nonneg e pt (i + 1)
+  have hl2 := lamAt_nonneg e pt (i + 1 + 1)
   refine ⟨?_, ?_, ?_, ?_⟩
   · split_ifs
     · exact neg_le_abs _
-    · exact ha
+    · linarith
   · split_ifs
     · exact le_abs_self _
-    · exact ha
+    · linarith
   · split_ifs
     · exact neg_abs_le _
     · linarith
@@ -147,8 +149,8 @@ theorem edge_cover_in {e : Env K} {eps : K} {pt : Nat → P K} {o : Out K} (j : 
         have hT2 := abs_nonneg (jtau pt (j + 3))
         refine trapIn h (j + 2) s3 Q3 (by rw [← D.tabs]; exact l3) (e.hwFw * x') (ε * y') hzb hzb1 ?_ ?_
         · simp only [sA0, sA1, if_neg (Nat.succ_ne_zero (j + 2)), Nat.add_sub_cancel]
-          have : e.hwFw * ((1 - ε * y') * (if nsAt e pt (j + 2 + 1) = true then -jtau pt (j + 2) else 0)
-              + (1 + ε * y') * (if psAt e pt (j + 2 + 1) = true then jtau pt (j + 2) else 0)) / 2
+          have : e.hwFw * ((1 - ε * y') * (if nsAt e pt (j + 2 + 1) = true then -jtau pt (j + 2) else -lamAt e pt (j + 2 + 1))
+              + (1 + ε * y') * (if psAt e pt (j + 2 + 1) = true then jtau pt (j + 2) else -lamAt e pt (j + 2 + 1))) / 2
               = e.hwFw * (τ * ((1 + y') - κ * (1 - y')) / 2) := by rw [← hloN]; ring
           rw [this]
           exact mul_le_mul_of_nonneg_left h3 (le_of_lt hw)
@@ -158,8 +160,8 @@ theorem edge_cover_in {e : Env K} {eps : K} {pt : Nat → P K} {o : Out K} (j : 
           linarith
       · rw [div_le_iff₀ hw]; linarith
       · rw [le_div_iff₀ hw]
-        have : e.hwFw * ((1 - u) * (if nsAt e pt (j + 1 + 1 + 1) = true then jtau pt (j + 1 + 1) else 0)
-            + (1 + u) * (if psAt e pt (j + 1 + 1 + 1) = true then -jtau pt (j + 1 + 1) else 0)) / 2
+        have : e.hwFw * ((1 - u) * (if nsAt e pt (j + 1 + 1 + 1) = true then jtau pt (j + 1 + 1) else lamAt e pt (j + 1 + 1 + 1))
+            + (1 + u) * (if psAt e pt (j + 1 + 1 + 1) = true then -jtau pt (j + 1 + 1) else lamAt e pt (j + 1 + 1 + 1))) / 2
             = -(τ * ((1 + ε * u) - κ * (1 - ε * u)) / 2) * e.hwFw := by rw [← hhiP]; ring
         rw [this] at hhi'
         linarith
@@ -198,16 +200,16 @@ theorem edge_cover_in {e : Env K} {eps : K} {pt : Nat → P K} {o : Out K} (j : 
         rw [← D.tabs] at l1
         linarith
       · simp only [sB0, sB1, if_neg (Nat.succ_ne_zero (j + 1))]
-        have : e.hwFw * ((1 - ε * y') * (if nsAt e pt (j + 1 + 1) = true then jtau pt (j + 1) else 0)
-            + (1 + ε * y') * (if psAt e pt (j + 1 + 1) = true then -jtau pt (j + 1) else 0)) / 2
+        have : e.hwFw * ((1 - ε * y') * (if nsAt e pt (j + 1 + 1) = true then jtau pt (j + 1) else lamAt e pt (j + 1 + 1))
+            + (1 + ε * y') * (if psAt e pt (j + 1 + 1) = true then -jtau pt (j + 1) else lamAt e pt (j + 1 + 1))) / 2
             = -(e.hwFw * (τ * ((1 + y') - κ * (1 - y')) / 2)) := by
           linear_combination e.hwFw * hhiP
         rw [this]
         have := mul_le_mul_of_nonneg_left h3 (le_of_lt hw)
         linarith
     · rw [div_le_iff₀ hw]
-      have : e.hwFw * ((1 - u) * (if nsAt e pt (j + 1 + 1) = true then -jtau pt (j + 1) else 0)
-          + (1 + u) * (if psAt e pt (j + 1 + 1) = true then jtau pt (j + 1) else 0)) / 2
+      have : e.hwFw * ((1 - u) * (if nsAt e pt (j + 1 + 1) = true then -jtau pt (j + 1) else -lamAt e pt (j + 1 + 1))
+          + (1 + u) * (if psAt e pt (j + 1 + 1) = true then jtau pt (j + 1) else -lamAt e pt (j + 1 + 1))) / 2
           = τ * ((1 + ε * u) - κ * (1 - ε * u)) / 2 * e.hwFw := by rw [← hloN]; ring
       rw [this] at hlo'
       linarith
